@@ -114,6 +114,12 @@ func verifH_SendFC() {
 		return nil
 	})
 	ds := snd.(*defaultSender)
+	// the state a previous message may have left behind: any window and possibly a
+	// stale wake-up token (all four combinations are reachable) - one message from
+	// an arbitrary inter-message state stands for any number of earlier messages
+	if verifBool("staleToken") {
+		ds.windowUpdates <- struct{}{}
+	}
 	upd := 0
 	cancelled := false
 	inUpdate := false
